@@ -179,7 +179,10 @@ DOMAIN = {
 }
 
 
-def run_check(prop: str, tier: str) -> int:
+LAST: Dict[str, Any] = {}
+
+
+def run_check(prop: str, tier: str, write: bool = True) -> int:
     rep = common.Reporter(prop)
     t0 = time.time()
     seed = common.seed()
@@ -279,8 +282,11 @@ def run_check(prop: str, tier: str) -> int:
         "checker_cmd": "tlc ObsReceiver (verdict) / TraceReceiver (conformance) / MC_Rx (design)",
         "exhaustive": False,
     }
-    common.write_evidence(prop, tier, coverage, ASSUMPTIONS + ([DOMAIN[prop]] if prop in DOMAIN else []),
-                          time.time() - t0, viol_n)
+    LAST.clear()
+    LAST.update({"coverage": coverage, "violations": viol_n, "assumptions": ASSUMPTIONS})
+    if write:
+        common.write_evidence(prop, tier, coverage, ASSUMPTIONS + ([DOMAIN[prop]] if prop in DOMAIN else []),
+                              time.time() - t0, viol_n)
     rep.info(f"{len(traces)} real executions, {coverage['events_checked']} events judged, {viol_n} violations, "
              f"conformance {accepted}/{len(cf)}, {time.time() - t0:.0f}s")
     if model_findings and not rep.violations:
